@@ -28,7 +28,8 @@ prop('C02', technique='contract-based deductive verification: two-implementation
                       'machine code; peephole windows before vs after optimize()) for all operand values',
      explanation='Expr.fold / BinaryOp.eval / UnaryOp.eval must compute what the unoptimised code computes at run time (value and type), must not '
                  'fold a run-time failure away and must raise nothing else; every peephole rule window is run on the machine before and after '
-                 'the real optimize() and must behave identically and stay assemblable; markers and labels survive',
+                 'the real optimize() and must behave identically and stay assemblable; markers and labels survive; bounded stand-in equiv.bounded: '
+                 'template programs behave the same at -O0/-O1/-O2 (device interactions, way of stopping)',
      assumptions=['windows are checked after 0-2 unrelated instructions; operands outside -2..2 symbolic, -2..2 enumerated'],
      not_covered=['CONST substitution by tree cloning', 'read/store pair elimination and jump rules only for marker preservation, not semantics',
                   'the push/push/div window on two INTEGER or LONG literals (binary64 quotient): not decidable with uninterpreted float '
@@ -104,7 +105,8 @@ prop('C11', technique='contract-based deductive verification: loop invariant wit
      not_covered=['source extracts for several statements per line', 'SELECT CASE marker bookkeeping', 'DebugInfo.add_node record fields beyond offsets'])
 prop('C08', technique='contract-based deductive verification: marker-erasure lemmas of the real generators (debug on vs off), assembler '
                       'and optimiser contracts over marker placement, frame (reads) conditions over the AST',
-     explanation='with debug information the generators emit the same instructions and labels plus balanced markers; markers occupy no bytes '
+     explanation='bounded stand-in equiv.bounded: template programs behave the same with and without debug information; '
+                 'with debug information the generators emit the same instructions and labels plus balanced markers; markers occupy no bytes '
                  'and survive the peephole pass in place; the literal/data/global sections and the semantic passes do not depend on the flag',
      assumptions=['the two optimised instruction lists (with / without markers) are each equivalent to their unoptimised list (C02), '
                   'which agree by marker erasure'],
